@@ -1,8 +1,10 @@
 HOOKS = {
     "guard": "cargo feature `verif-hooks` on crate vaporetto",
-    "enable": "the harness crates depend on /repo/vaporetto with features [\"kytea\", \"train\", \"verif-hooks\"]",
+    "enable": "the harness crates depend on /repo/vaporetto with features [\"kytea\", \"train\", \"verif-hooks\"]; for hook H5 the `train` tool is "
+              "built with `cargo build -p train --features vaporetto/verif-hooks` into /verif/target/repo-hooks and run with the environment "
+              "variable VAPORETTO_VERIF_DUMP naming a scratch file (without the feature, or without the variable, nothing is recorded)",
     "baseline_off_cmd": "cd /repo && cargo test --workspace --no-fail-fast --offline",
-    "source_commits": ["cf6fd43", "9557e87", "9e3509a", "16fb2df"],
+    "source_commits": ["cf6fd43", "9557e87", "9e3509a", "16fb2df", "0071c72"],
     "add_only": True,
 }
 NOTES = ("Every check rebuilds the Rust harness against /repo's working tree, regenerates lean/VModel/Generated/* by exhaustive "
